@@ -9,12 +9,12 @@ Inductive c03kind :=
     (* calcAudioTimeFromRef *)
 | KRecipe (nr s e D r F a : Z) (ocls : Z) (obs : list Z)
     (* calcAudioSegRecipe: [segNr; startTime; endTime; audioInStart; audioInEnd; audioInEndAfterWrap] *)
-| KSeg (fx : bool) (nr s e D r F a : Z) (tab : list seg) (canon : list Z) (ocls : Z) (otfdt oseq : Z) (oframes : list Z)
+| KSeg (nr s e D r F a : Z) (tab : list seg) (canon : list Z) (ocls : Z) (otfdt oseq : Z) (oframes : list Z)
     (* recipe + createAudioSeg: the served segment (tfdt, sequence number, source index of every frame);
        [canon] maps a source frame index to the first index with the same content ([] = identity) *)
-| KCreate (fx : bool) (F : Z) (tab : list seg) (rc : recipe) (ocls : Z) (otfdt oseq : Z) (oframes : list Z)
-    (* createAudioSeg on an arbitrary recipe; [fx]: which version of L115 the implementation has (see Audio.seg_loop) *)
-| KReq (fx : bool) (vr : Timeline.rep) (loopMS startNr F a : Z) (tab : list seg) (canon : list Z)
+| KCreate (F : Z) (tab : list seg) (rc : recipe) (ocls : Z) (otfdt oseq : Z) (oframes : list Z)
+    (* createAudioSeg on an arbitrary recipe *)
+| KReq (vr : Timeline.rep) (loopMS startNr F a : Z) (tab : list seg) (canon : list Z)
        (mode segID nowMS : Z) (ocls : Z) (otfdt oseq : Z) (oframes : list Z)
     (* a whole audio request through the HTTP router: reference lookup by number ([mode = 0]) or by
        time ([mode = 1]), recipe, createAudioSeg. Default configuration (start 0, tsbd 60 s, ato 0).
@@ -48,9 +48,9 @@ Definition ocls_of {A} (o : Timeline.outcome A) : Z :=
 Definition req_cfg (startNr : Z) : Timeline.tcfg :=
   {| Timeline.startS := 0; Timeline.startNr := startNr; Timeline.tsbdS := 60; Timeline.ato := Some 0 |}.
 
-Definition req_model (fx : bool) (vr : Timeline.rep) (loopMS startNr F a : Z) (tab : list seg) (mode segID nowMS : Z)
+Definition req_model (vr : Timeline.rep) (loopMS startNr F a : Z) (tab : list seg) (mode segID nowMS : Z)
   : Timeline.outcome outseg :=
-  audio_request fx vr loopMS (req_cfg startNr) F a tab
+  audio_request vr loopMS (req_cfg startNr) F a tab
                 (if mode =? 0 then Timeline.ByNumber else Timeline.ByTime) segID nowMS.
 
 Definition req_ok (canon : list Z) (m : Timeline.outcome outseg) (ocls otfdt oseq : Z) (oframes : list Z) : bool :=
@@ -81,12 +81,12 @@ Definition case_ok (c : c03case) : bool :=
       | Ok rc => (ocls =? 0) && list_eqb Z.eqb (recipe_view rc) obs
       | m => cls m =? ocls
       end
-  | KSeg fx nr s e D r F a tab canon ocls otfdt oseq oframes =>
-      out_ok canon (audio_segment fx nr s e D r F a tab) ocls otfdt oseq oframes
-  | KCreate fx F tab rc ocls otfdt oseq oframes =>
-      out_ok [] (create_audio_seg fx F tab rc) ocls otfdt oseq oframes
-  | KReq fx vr loopMS startNr F a tab canon mode segID nowMS ocls otfdt oseq oframes =>
-      req_ok canon (req_model fx vr loopMS startNr F a tab mode segID nowMS) ocls otfdt oseq oframes
+  | KSeg nr s e D r F a tab canon ocls otfdt oseq oframes =>
+      out_ok canon (audio_segment nr s e D r F a tab) ocls otfdt oseq oframes
+  | KCreate F tab rc ocls otfdt oseq oframes =>
+      out_ok [] (create_audio_seg F tab rc) ocls otfdt oseq oframes
+  | KReq vr loopMS startNr F a tab canon mode segID nowMS ocls otfdt oseq oframes =>
+      req_ok canon (req_model vr loopMS startNr F a tab mode segID nowMS) ocls otfdt oseq oframes
   | KTimeline startNr refT entries r F a ocls obs =>
       match audio_timeline startNr refT entries r F a with
       | Ok l => (ocls =? 0) && list_eqb triple_eqb (map entry_view l) obs
@@ -109,10 +109,10 @@ Definition model_view (c : c03case) : Z * list Z :=
   | KTime t r F a _ _ => match calcAudioTimeFromRef t r F a with Ok v => (0, [v]) | m => (cls m, []) end
   | KRecipe nr s e D r F a _ _ =>
       match calcAudioSegRecipe nr s e D r F a with Ok rc => (0, recipe_view rc) | m => (cls m, []) end
-  | KSeg fx nr s e D r F a tab _ _ _ _ _ => out_view (audio_segment fx nr s e D r F a tab)
-  | KCreate fx F tab rc _ _ _ _ => out_view (create_audio_seg fx F tab rc)
-  | KReq fx vr loopMS startNr F a tab _ mode segID nowMS _ _ _ _ =>
-      match req_model fx vr loopMS startNr F a tab mode segID nowMS with
+  | KSeg nr s e D r F a tab _ _ _ _ _ => out_view (audio_segment nr s e D r F a tab)
+  | KCreate F tab rc _ _ _ _ => out_view (create_audio_seg F tab rc)
+  | KReq vr loopMS startNr F a tab _ mode segID nowMS _ _ _ _ =>
+      match req_model vr loopMS startNr F a tab mode segID nowMS with
       | Timeline.TOk o => out_view (Ok o)
       | m => (ocls_of m, [])
       end
